@@ -223,6 +223,17 @@ def classify(resp: Resp):
             if len(items) % 2:
                 return {"kind": "UNPARSED", "why": "odd FETCH items", "raw": raw[:200]}
             d = {"kind": "FETCH", "n": n, "items": {}}
+            try:
+                return _fetch_items(d, items, raw)
+            except (ValueError, ParseError, TypeError) as e:
+                return {"kind": "UNPARSED", "why": f"FETCH item value: {e}", "raw": raw[:200]}
+        return {"kind": "UNPARSED", "why": "unknown numeric response", "raw": raw[:200]}
+    return _classify_rest(resp, raw, toks)
+
+
+def _fetch_items(d, items, raw):
+    if True:
+        if True:
             for k in range(0, len(items), 2):
                 name = items[k]
                 if not _is_atom(name):
@@ -240,7 +251,10 @@ def classify(resp: Resp):
                     d["internaldate"] = _txt(val)
                 d["items"][key] = val
             return d
-        return {"kind": "UNPARSED", "why": "unknown numeric response", "raw": raw[:200]}
+
+
+def _classify_rest(resp, raw, toks):
+    t1 = toks[1]
     if not _is_atom(t1):
         return {"kind": "UNPARSED", "why": "bad untagged keyword", "raw": raw[:200]}
     kw = t1[1].upper()
